@@ -6,6 +6,7 @@ import Ndt.Model.Fornberg
 import Ndt.Model.FdDerivative
 import Ndt.Model.Dea
 import Ndt.Model.Steps
+import Ndt.Model.Guards
 /-! The line-protocol driver: one operation per input line, one output line per input line. -/
 namespace Ndt.Driver
 open Ndt.Proto Ndt.Gen
@@ -62,8 +63,22 @@ def runEps (seq : List Float) : String :=
 
 def optNat (s : String) : Option Nat := if s == "-" then none else some s.toNat!
 
+def clsOf : String → Cls
+  | "Gradient" => .gradient | "Jacobian" => .jacobian | "Hessdiag" => .hessdiag | "Hessian" => .hessian | _ => .derivative
+def outStr : Outcome → String
+  | .value => "value" | .valueError => "ValueError"
+
 def handle (w : List String) : String :=
   match w with
+  -- outcome cls method n order xComplex fComplex fdelSize hSize numSteps
+  | ["outcome", cls, m, n, o, xc, fc, fs, hs, ns] =>
+    outStr (Call.outcome ⟨clsOf cls, Method.ofString m, n.toNat!, o.toNat!, xc == "1", fc == "1", fs.toNat!, hs.toNat!, ns.toNat!⟩)
+  | ["residue", o, p] =>
+    match residueOrder (optNat o) p.toNat! with
+    | some k => s!"order {k}"
+    | none => "ValueError"
+  | ["dirdiff", a, b] => outStr (directionaldiffOutcome a.toNat! b.toNat! .value)
+  | ["cpath", sp, ra] => outStr (cstepPathOutcome (sp == "1") (ra == "1"))
   -- stepgen method n order numSteps|- check extrap: the generated count logic and defaults
   | ["stepgen", m, n, o, ns, chk, ex] =>
     let g : StepGen := { method := Method.ofString m, n := n.toNat!, order := o.toNat!, numSteps := optNat ns,
